@@ -67,6 +67,10 @@ fn pattern_tags(p: &str) -> Vec<String> {
     if p.contains("((") {
         add("pat:paren-inside-group")
     }
+    // a pattern that ends in an unescaped backslash
+    if p.chars().rev().take_while(|c| *c == '\\').count() % 2 == 1 {
+        add("pat:trailing-backslash")
+    }
     if p.contains('\n') {
         add("pat:newline")
     }
@@ -152,8 +156,25 @@ pub fn run(tier: Tier, _replay: Option<Value>) -> ! {
         let cs: Vec<char> = p.chars().collect();
         (0..cs.len().saturating_sub(1)).any(|i| "?*+@!".contains(cs[i]) && cs[i + 1] == '(' && !cs[i + 2..].contains(&')'))
     };
-    let patterns: Vec<String> = enumerate::strings(SP, plen).into_iter().filter(|p| !unterminated(p)).collect();
-    let subjects = enumerate::strings(SS, 3);
+    let mut patterns: Vec<String> = enumerate::strings(SP, plen).into_iter().filter(|p| !unterminated(p)).collect();
+    let mut subjects = enumerate::strings(SS, 3);
+    // bracket expressions as units: every pair of bracket expressions over 11 member lists (escaped
+    // backslash and escaped `]` as last member, negations, a range, a class, a leading `]`, `-`), adjacent,
+    // separated by a literal, and next to `*` — what one expression contains must not change how the next
+    // one is read
+    let members = ["a", "\\\\", "a\\\\", "\\]", "!a", "^b", "a-b", "[:alpha:]", "]a", "-", "b\\\\-"];
+    for m1 in members {
+        for m2 in members {
+            patterns.push(format!("[{m1}][{m2}]"));
+            patterns.push(format!("[{m1}]b[{m2}]"));
+        }
+        patterns.push(format!("[{m1}]*"));
+        patterns.push(format!("*[{m1}]"));
+        patterns.push(format!("[{m1}]*[{m1}]"));
+    }
+    for extra in ["\\", "\\a", "\\b", "a\\", "[a]", "\\[a]", "[", "a[", "\\]", "ab\\", "\\ba"] {
+        subjects.push(extra.to_string());
+    }
     let cfgs: Vec<Cfg> = match tier {
         Tier::Quick => vec![Cfg { extglob: false, nocase: false }, Cfg { extglob: true, nocase: false }, Cfg { extglob: true, nocase: true }],
         Tier::Thorough => vec![Cfg { extglob: false, nocase: false }, Cfg { extglob: true, nocase: false }, Cfg { extglob: true, nocase: true }, Cfg { extglob: false, nocase: true }],
@@ -406,7 +427,26 @@ pub fn run(tier: Tier, _replay: Option<Value>) -> ! {
     {
         let pieces = ["*", "?", "[ab.]", "a", ".", "\".a\"", "'.'", "\\.", "\"a\"", "\\*", "d/"];
         let words: Vec<String> = enumerate::strings(&pieces, tier.pick(3, 4)).into_iter().filter(|w| !w.is_empty() && !w.starts_with("d/d/")).collect();
-        let qtrees: Vec<Vec<&str>> = vec![vec!["a", ".a", "a.a", ".a.a", "b", "d/.a", "d/a.a", "d/..a"], vec![".a"], vec!["a.a", "d/a"]];
+        let mut words = words;
+        // path words of two and three COMPONENTS, each component from a set with and without a leading dot:
+        // whether a component may match dot-files is decided per component, by that component alone
+        let comps = ["*", ".*", ".d*", "d*", "?", ".?", "[.d]*", "s", ".d"];
+        for c1 in comps {
+            for c2 in comps {
+                words.push(format!("{c1}/{c2}"));
+                if tier == Tier::Thorough || (c1.starts_with('.') != c2.starts_with('.')) {
+                    for c3 in ["*", ".*", "?"] {
+                        words.push(format!("{c1}/{c2}/{c3}"));
+                    }
+                }
+            }
+        }
+        let qtrees: Vec<Vec<&str>> = vec![
+            vec!["a", ".a", "a.a", ".a.a", "b", "d/.a", "d/a.a", "d/..a"],
+            vec![".a"],
+            vec!["a.a", "d/a"],
+            vec![".d/.h", ".d/v", "d/.h", "d/v", ".d/s/.k", ".d/s/w", "d/s/.k", "d/s/w", "d/.s/w", "v", ".h"],
+        ];
         let mut body = String::new();
         for (k, w) in words.iter().enumerate() {
             body.push_str(&format!("echo \"#{k}\"\nvargs {w}\n"));
